@@ -10,14 +10,15 @@ import vlib
 LEVEL = "proof"
 RULE = ("string frames (2..6 feature columns + label, 5..200 rows) x interaction order 2..4 x cap, run through the real "
         "compute_combined_features with a fresh sampler counter; histories of 2..4 batches in one process with binding caps "
-        "(prior counts kept); large frames judged Python-side (3e5 distinct tuples; 1.5e5 distinct of 4e5 rows; six scale "
+        "(prior counts kept); long cells (>= 10 / >= 100 characters, digit-leading) with tuples built to collide under "
+        "length-without-separator, separator-without-length and plain concatenation, orders 2..4; large frames judged Python-side (3e5 distinct tuples; 1.5e5 distinct of 4e5 rows; six scale "
         "frames just above 2^16 rows, orders 2..4, distinct-count products beyond 2^31/2^32/2^63/2^64, num_threads 1/4/8, CLI "
         "default args): tuple -> value a function and injective, every cell non-null, originals and names unchanged; values from prefix/suffix-related, digit, "
         "delimiter-and-digit (adversarial for the length-prefixed encoding), unicode and special families, with planted "
         "tuples whose plain concatenations coincide; non-trivial = some new column whose rows are neither all equal nor "
         "all distinct; distinct = distinct canonical cases")
 THEOREMS = ["C10_enc_inj", "C10_equal_iff", "C10_equal_if", "C10_name", "C10_originals_untouched", "C10_new_columns",
-            "C10_rows_iff", "C10_score", "C10_score_equal", "C10_no_collision_satisfiable", "C10_prefix_refuted", "C10_old_partition_refuted",
+            "C10_rows_iff", "C10_score", "C10_score_equal", "C10_no_collision_satisfiable", "C10_prefix_refuted", "C10_nosep_refuted", "C10_old_partition_refuted",
             "C10_candidates", "C10_checker_sound", "C10_partition_test_exact"]
 
 PREFIX_POOL = ["1", "11", "111", "1111", "", "12", "21", "121", "112", "211", "a", "ab", "abc", "b", "bc", "c", "ba",
@@ -116,6 +117,90 @@ def gen_case(rng):
     return case
 
 
+# ---- long cells: adversaries of near-miss encodings (harness-side only; they build inputs, they decide nothing) ----
+def e_nosep(t):
+    return "".join("%d%s" % (len(v), v) for v in t)
+
+
+def e_seponly(t):
+    return "".join(v + ":" for v in t)
+
+
+def long_str(rng, n, alphabet="0123456789"):
+    return "".join(rng.choice(alphabet) for _ in range(n))
+
+
+def nosep_pair(rng, big):
+    """two different pairs (a, b), (a2, b2) with len+value concatenations (no separator) equal: the length of a2 has D >= 2
+    digits, the other reading takes only its first e digits as the length.  Cells are digit-leading, >= 10 (big: >= 100) long."""
+    for _ in range(200):
+        D = 3 if big else 2
+        n1 = rng.randint(100, 260) if big else rng.randint(10, 99)
+        e = rng.randint(1, D - 1)
+        p = int(str(n1)[:e])
+        consumed = e + p
+        n2 = rng.choice([0, 1, 3, rng.randint(2, 40), rng.randint(10, 150)])
+        if consumed < D or consumed > D + n1 - 4:
+            continue
+        len_r = (D + n1 - consumed) + len(str(n2)) + n2
+        m = next((len_r - nd for nd in (1, 2, 3, 4) if len_r - nd >= 0 and len(str(len_r - nd)) == nd), None)
+        if m is None or consumed - D + len(str(m)) > n1:
+            continue
+        alpha = rng.choice(["0123456789", "0123456789", "0123456789A", "01:", "9"])
+        a2 = list(long_str(rng, n1, alpha))
+        a2[consumed - D:consumed - D + len(str(m))] = list(str(m))
+        a2 = "".join(a2)
+        b2 = long_str(rng, n2, rng.choice(["0123456789", "xyz9", alpha]))
+        S = str(n1) + a2 + str(n2) + b2
+        a, b = S[e:e + p], S[consumed + len(str(m)):]
+        if (a, b) != (a2, b2) and e_nosep((a, b)) == e_nosep((a2, b2)):
+            return [a, b], [a2, b2]
+    return None
+
+
+def seponly_pair(rng, big):
+    """(x:y, z) / (x, y:z): equal under value+':' and under ':'.join, long digit-leading parts"""
+    n = rng.randint(100, 160) if big else rng.randint(10, 40)
+    x, y, z = (long_str(rng, rng.randint(1, n), "0123456789") for _ in range(3))
+    return [x + ":" + y, z], [x, y + ":" + z]
+
+
+def concat_pair(rng, big):
+    s = long_str(rng, rng.randint(200, 320) if big else rng.randint(20, 60), rng.choice(["0123456789", "01", "1"]))
+    i, j = sorted(rng.sample(range(1, len(s)), 2))
+    return [s[:i], s[i:]], [s[:j], s[j:]]
+
+
+def gen_long(rng):
+    """long cells (>= 10 and >= 100 characters, digit-leading / digit-only, prefixes and suffixes of each other across the column
+    boundary): for pairs of adjacent constituents the rows carry tuples built to collide under 'length without separator',
+    'separator without length' and plain concatenation; orders 2..4; judged by the usual partition comparison"""
+    order = rng.randint(2, 4)
+    nf = order + (1 if rng.random() < 0.3 else 0)
+    names = [rng.choice(NAME_POOL) + str(i) for i in range(nf)]
+    label = "label"
+    tuples = []
+    for _ in range(rng.randint(2, 5)):
+        big = rng.random() < 0.4
+        maker = rng.choice([nosep_pair, nosep_pair, nosep_pair, seponly_pair, concat_pair])
+        pr = maker(rng, big)
+        if pr is None:
+            continue
+        j = rng.randint(0, nf - 2)                      # the two adjacent constituents carrying the pair
+        shared = [rng.choice(["5", "", "12", long_str(rng, rng.randint(10, 30)), long_str(rng, 101, "09")]) for _ in range(nf)]
+        for half in pr:
+            t = list(shared)
+            t[j], t[j + 1] = half
+            tuples.append(t)
+    while len(tuples) < 3:
+        tuples.append([long_str(rng, rng.randint(10, 120)) for _ in range(nf)])
+    nrows = rng.randint(len(tuples), len(tuples) + 12)
+    body = list(tuples) + [rng.choice(tuples) for _ in range(nrows - len(tuples))]
+    rng.shuffle(body)
+    rows = [t + [rng.choice("01")] for t in body]
+    return {"names": names + [label], "rows": rows, "label": label, "order": order, "cap": 2 ** 15, "is3mr": False}
+
+
 def gen_history(rng):
     """2..4 consecutive batches over the same columns in one process (the sampler's prior counts are NOT cleared
     between them), binding cap: later batches get combinations other than the leading ones"""
@@ -166,6 +251,10 @@ def large_cases(seed):
 def fixed_cases():
     """the witness of the repaired defect, and its relatives"""
     out = []
+    out.append({"names": ["a", "b", "label"], "rows": [["0", "AAAAAAAA3xyz", "0"], ["12AAAAAAAA", "xyz", "1"], ["0", "AAAAAAAA3xyz", "1"]],
+                "label": "label", "order": 2, "cap": 100, "is3mr": False})
+    out.append({"names": ["a", "b", "c", "label"], "rows": [["5", "0", "000000003999", "0"], ["5", "1200000000", "999", "1"]],
+                "label": "label", "order": 3, "cap": 100, "is3mr": False})
     out.append({"names": ["a", "b", "label"], "rows": [["1", "11", "x"], ["11", "1", "x"], ["1", "11", "y"]],
                 "label": "label", "order": 2, "cap": 100, "is3mr": False})
     out.append({"names": ["a", "b", "c", "label"],
@@ -463,6 +552,8 @@ def check(run, replay):
             cases.append(gen_case(run.rng))
         for _ in range(40 if run.tier == "quick" else 400):
             cases.append(gen_history(run.rng))
+        for _ in range(30 if run.tier == "quick" else 300):
+            cases.append(gen_long(run.rng))
         cases.extend(large_cases(run.seed))
         if run.tier == "thorough":
             cases.extend(exhaustive_cases())
